@@ -13,12 +13,16 @@ def run(ctx):
     cfgs = [("pure", "c02", []), ("aligned-sse2", "c02_sse2", ["-DGLM_FORCE_INTRINSICS", "-DGLM_FORCE_DEFAULT_ALIGNED_GENTYPES", "-msse2"])]
     if not ctx.quick:
         cfgs.append(("aligned-avx2", "c02_avx2", ["-DGLM_FORCE_INTRINSICS", "-DGLM_FORCE_DEFAULT_ALIGNED_GENTYPES", "-mavx2"]))
+    # aligned double matrices use __m256d kernels from AVX on (and different shuffles at AVX than at AVX2): the double family at -mavx and -mavx2
+    cfgs += [("aligned-avx-double", "c02_avx_d", ["-DGLM_FORCE_INTRINSICS", "-DGLM_FORCE_DEFAULT_ALIGNED_GENTYPES", "-mavx"])]
+    if not ctx.quick:
+        cfgs += [("aligned-avx2-double", "c02_avx2_d", ["-DGLM_FORCE_INTRINSICS", "-DGLM_FORCE_DEFAULT_ALIGNED_GENTYPES", "-mavx2", "-mfma"])]
     for label, name, flags in cfgs:
         b = ctx.build(name, "c02.cpp", flags=flags, label="c02 " + label)
         if not b:
             continue
         tr = ctx.scratch.path(name + ".ndjson")
-        ok, out = ctx.run_harness(b, [tr, ctx.tier if label == "pure" else "simd"], tr)
+        ok, out = ctx.run_harness(b, [tr, ctx.tier if label == "pure" else "simdd" if label.endswith("double") else "simd"], tr)
         if ok:
             ctx.validate(TRACE_MODULE, tr, label=label, min_lines=600)
     # the pre-C++11 bodies of the constructors (GLM_HAS_INITIALIZER_LISTS == 0) are separate code: the same harness under GLM_FORCE_CXX98,
